@@ -6,13 +6,13 @@
    statements on the projected trace and cross-checks them against the theorems' predictions for the repaired
    variant (MODELBUG if the extracted code disagrees with what is proved). *)
 (* variants: v<s><o><l><p><g> = fix_sent, fix_order, fix_l2stop, fix_prune, fix_ghost on top of the first three repairs;
-   "head" = v10110 = /repo HEAD; "repaired" = v11111; "defective" = the code as first found *)
+   "head" = v10111 = /repo HEAD; "repaired" = v11111; "defective" = the code as first found *)
 let variant_of name =
   let mk s o l p g = { fix_counters = true; fix_stop = true; fix_active = true; fix_sent = s; fix_order = o; fix_l2stop = l;
                        fix_prune = p; fix_ghost = g } in
   match name with
   | "repaired" | "" -> mk true true true true true
-  | "head" -> mk true false true true false
+  | "head" -> mk true false true true true
   | "defective" -> { fix_counters = false; fix_stop = false; fix_active = false; fix_sent = false; fix_order = false;
                      fix_l2stop = false; fix_prune = false; fix_ghost = false }
   | s when String.length s = 6 && s.[0] = 'v' -> mk (s.[1] = '1') (s.[2] = '1') (s.[3] = '1') (s.[4] = '1') (s.[5] = '1')
@@ -243,7 +243,7 @@ let run_case v line =
              W  a uint64 cumulative wrapped (excuses mono, snt)
              P  the accounting was dropped by an orphan prune and the variant sends no Stop for it (fixed in 7faf7f9: never at HEAD)
              D  a Start of the session was held back and the variant does not order its calls (known finding)
-             G  a late Accounting-Response re-created the checkpoint of a released session (known finding; the only
+             G  a late Accounting-Response re-created the checkpoint of a released session (fixed in 5478db8; the only
                 excuse for stp: the ghost entry gets a second Stop) *)
         let exc_p = pruned.(j) && not v.fix_prune and exc_d = delayed.(j) && not v.fix_order
         and exc_g = ghosted.(j) in   (* only set for variants without fix_ghost *)
